@@ -35,6 +35,11 @@ type authScenario struct {
 	Reqs  []authReq
 	Fine  bool
 	Bound int
+	// Warm: requests made one after the other on a fresh authenticator before the explored requests;
+	// Later: how much later (virtual clock) the explored requests arrive. Scenarios that use them get a fresh
+	// authenticator for every execution, so that what the caches hold is the same every time.
+	Warm  []authReq
+	Later time.Duration
 }
 
 type authObs struct {
@@ -91,9 +96,10 @@ func authObserve(e *harness.AuthEnv, rec *httptest.ResponseRecorder) authObs {
 }
 
 type authRun struct {
-	obs   []authObs
-	calls []string // distinct identity-provider calls (endpoint, subject), sorted
-	s     *sched.Sched
+	obs       []authObs
+	calls     []string // distinct identity-provider calls (endpoint, subject), sorted
+	identical []string // identity-provider requests (endpoint, subject) that were in flight twice at the same moment
+	s         *sched.Sched
 }
 
 // the scripted identity provider: a pure function of the call. Codes, tokens and refresh tokens name
@@ -147,11 +153,35 @@ func authExecute(x *explore.Exec, e *harness.AuthEnv, sc authScenario, only int)
 	recs := make([]*httptest.ResponseRecorder, len(reqs))
 	run := authRun{}
 	seen := map[string]bool{}
-	run.s = sched.Run(x, func(s *sched.Sched) { s.FineGrained = sc.Fine }, func(s *sched.Sched) {
+	inflight, twice := map[string]int{}, map[string]bool{}
+	run.s = sched.Run(x, func(s *sched.Sched) { s.FineGrained = sc.Fine; s.Clock = int64(sc.Later) }, func(s *sched.Sched) {
 		e.IdP.Answer = func(c *harness.IdPCall) harness.AuthAnswer {
 			a, subject := authIdPAnswer(c)
+			// (the identity provider is working on a request from its arrival to its answer)
+			inflight[subject]++
+			if inflight[subject] > 1 && !strings.HasSuffix(subject, " ") { // (a request naming no token has no subject to be identical in)
+				twice[subject] = true
+			}
+			aborted := false
 			if !s.IsAborting() {
-				s.Point("idp:" + c.Endpoint)
+				func() {
+					// a goroutine the service started (a background renewal) may still be inside a call to the identity
+					// provider when the execution ends: the scheduler then unwinds whoever is parked here — this server
+					// goroutine — and the call is answered with a dropped connection so that its caller ends too
+					defer func() {
+						if r := recover(); r != nil {
+							if !sched.IsControl(r) {
+								panic(r)
+							}
+							aborted = true
+						}
+					}()
+					s.Point("idp:" + c.Endpoint)
+				}()
+			}
+			inflight[subject]--
+			if aborted {
+				return harness.AuthAnswer{Reset: true}
 			}
 			seen[subject] = true
 			c.Answer = describeAnswer(a)
@@ -178,6 +208,10 @@ func authExecute(x *explore.Exec, e *harness.AuthEnv, sc authScenario, only int)
 		run.calls = append(run.calls, k)
 	}
 	sort.Strings(run.calls)
+	for k := range twice {
+		run.identical = append(run.identical, k)
+	}
+	sort.Strings(run.identical)
 	return run
 }
 
@@ -255,6 +289,19 @@ func c16RunE2EAuth(c *fw.Ctx) {
 		var e *harness.AuthEnv
 		var solo []authObs
 		soloCalls := map[string]bool{}
+		warmUp := func(e *harness.AuthEnv) {
+			e.IdP.Answer = func(c *harness.IdPCall) harness.AuthAnswer { a, _ := authIdPAnswer(c); return a }
+			// (under a scheduler of its own: the goroutines the services start while being warmed up — cache
+			// expiry timers — end with it instead of lingering into the explored execution)
+			sched.Run(explore.NewExec(nil), nil, func(s *sched.Sched) {
+				s.Go("warm-up", func() {
+					for _, wr := range sc.Warm {
+						target, hdr, body := wr.Build(e)
+						e.Handler.ServeHTTP(httptest.NewRecorder(), harness.NewRequest(wr.Method, target, harness.AuthHost, hdr, body))
+					}
+				})
+			})
+		}
 		build := func() {
 			if e != nil {
 				e.Close()
@@ -266,7 +313,18 @@ func c16RunE2EAuth(c *fw.Ctx) {
 			}
 			solo, soloCalls = nil, map[string]bool{}
 			for i := range sc.Reqs {
-				r := authExecute(explore.NewExec(nil), e, sc, i)
+				se := e
+				if len(sc.Warm) > 0 {
+					se, err = harness.NewAuthEnv(harness.AuthOpts{EmailDomains: []string{"corp.test"}, RootDomains: []string{"sso.test"}, GroupCacheTTL: 10 * time.Minute})
+					if err != nil {
+						panic(explore.HarnessError{Msg: "e2e-auth: " + err.Error()})
+					}
+					warmUp(se)
+				}
+				r := authExecute(explore.NewExec(nil), se, sc, i)
+				if se != e {
+					se.Close()
+				}
 				if r.s.Panic != nil || r.s.Deadlock || len(r.obs) != 1 {
 					panic(explore.HarnessError{Msg: fmt.Sprintf("e2e-auth: the solo run of %s/%s failed: panic=%v deadlock=%v", sc.Name, sc.Reqs[i].Name, r.s.Panic, r.s.Deadlock)})
 				}
@@ -279,6 +337,18 @@ func c16RunE2EAuth(c *fw.Ctx) {
 		drive(c, sc.Name, sc.Bound, func(x *explore.Exec, owned bool) {
 			if e == nil {
 				build()
+			}
+			if len(sc.Warm) > 0 {
+				// a fresh authenticator, brought to the same state, for every execution
+				fe, err := harness.NewAuthEnv(harness.AuthOpts{EmailDomains: []string{"corp.test"}, RootDomains: []string{"sso.test"}, GroupCacheTTL: 10 * time.Minute})
+				if err != nil {
+					panic(explore.HarnessError{Msg: "e2e-auth: " + err.Error()})
+				}
+				defer fe.Close()
+				warmUp(fe)
+				saved := e
+				e = fe
+				defer func() { e = saved }()
 			}
 			r := authExecute(x, e, sc, -1)
 			s := r.s
@@ -330,6 +400,9 @@ func c16RunE2EAuth(c *fw.Ctx) {
 				return
 			}
 			short := strings.TrimPrefix(strings.TrimSuffix(sc.Name, "-statement-granularity"), "e2e-auth/")
+			for _, k := range r.identical {
+				viol("e2e-auth/identical-calls-in-flight/"+short, "the identity provider was working on two identical requests at the same moment: "+k)
+			}
 			for i, q := range sc.Reqs {
 				if solo[i] == r.obs[i] {
 					c.Res.Count("positive_requests_ending_as_when_alone", 1)
